@@ -131,6 +131,8 @@ def rh_behaviour(rng, fam, scan, w=None):
         cmds.append("rhrun 0 %d %d %d %d %d %s" % (b, base, ml, m, t, place(rng)))
         if rng.random() < 0.12:
             cmds.append("rhmove 0")
+        if rng.random() < 0.08:     # a new stream on the used state: reset without a fresh init
+            cmds.append("rhreset 0 %d %d" % (rng.choice([b, 0, 1]), rng.randrange(1 << 18)))
         total += ml
         if total > 6000:
             break
@@ -139,9 +141,25 @@ def rh_behaviour(rng, fam, scan, w=None):
     return cmds
 
 
+def rh_until_calls(rng, n):
+    """the three inner scans called directly (they are exported): window, data, mask / trigger"""
+    out = []
+    for scan in ("base", "00", "04"):
+        for _ in range(n):
+            w = rng.choice([1, 2, 3, 16, 31, 32, 33, 48, rng.randrange(1, 49)])
+            ln = rng.choice([0, 1, 2, 3, 4, 5, 7, 8, 9, 15, 16, 17, 31, 33, rng.randrange(0, 300), rng.randrange(0, 300)])
+            m, t = rh_mask(rng)
+            if rng.random() < 0.5:      # dense masks: hits everywhere, also on the last byte of the range
+                m = rng.choice([1, 3, 7, 0x11])
+                t = rng.choice([0, m & rng.getrandbits(8)])
+            out.append(["rhuntil %s %d %d %d %d %d %d %s" % (scan, w, rng.randrange(2, 1 << 20), rng.randrange(1 << 18), ln, m, t, place(rng))])
+    return out
+
+
 def rh_jobs(rng, n_per_combo):
     jobs = {}
     for scan in RH_SCANS:
         for fam in RH_FAMS:
             jobs["rh-%s-%s" % (scan, fam)] = [rh_behaviour(rng, fam, scan) for _ in range(n_per_combo)]
+    jobs["rh-until-int"] = rh_until_calls(rng, max(6, 2 * n_per_combo))
     return jobs
